@@ -345,8 +345,10 @@ class Parser(object):
             if v in NUM_FUNCS or v in STR_FUNCS:
                 self.next()
                 if self.peek() != ("op", "("):
-                    self.err("syntax: function without argument list")
+                    raise Undefined("syntax_function_without_parentheses")
                 return ("call", v, self.args())
+            if v == "NOT":
+                raise Undefined("precedence_not")
             if v in STMT_KW or v in OP_KW:
                 self.err("syntax: keyword %s in expression" % v)
             if v in RESERVED:
@@ -357,6 +359,8 @@ class Parser(object):
             return ("var", v)
         if k is None:
             self.err("syntax: expression ends unexpectedly")
+        if v == ",":
+            raise Undefined("syntax_empty_list_item")
         self.err("syntax: unexpected %s" % v)
 
     def lvalue(self):
@@ -378,11 +382,12 @@ class Parser(object):
 
     def done(self):
         if not self.at_end():
-            # text after a complete statement: the manual gives no list syntax without separators
+            # text after a complete statement: the manual gives no list syntax without separators and does not say
+            # that trailing text is an error (the statement itself is complete)
             k, v = self.peek()
             if k in ("num", "str", "id") or (k == "op" and v == "("):
                 raise Undefined("syntax_juxtaposed_items")
-            self.err("syntax: extra text after statement")
+            raise Undefined("syntax_extra_text")
 
     # statements -----------------------------------------------------------------------------------
     def statement(self):
@@ -473,11 +478,13 @@ class Parser(object):
             if not self.is_kw("GOTO", "GOSUB"):
                 self.err("syntax: ON without GOTO/GOSUB")
             kind = self.next()[1]
-            targets = [self.lineref()]
-            while self.peek() == ("op", ","):
-                self.next()
-                targets.append(self.lineref())
-            self.done()
+            # only the selected entry of the list is ever needed: a damaged entry elsewhere is not defined to be an error
+            rest = self.t[self.i:]
+            ok = len(rest) % 2 == 1 and all((t[0] == "num" and t[1].isdigit()) if j % 2 == 0 else t == ("op", ",") for j, t in enumerate(rest))
+            if not ok:
+                raise Undefined("syntax_on_target_list")
+            targets = [int(t[1]) for t in rest[0::2]]
+            self.i = len(self.t)
             return ("on", kind, e, targets)
         if v == "DATA":
             self.next()
@@ -506,6 +513,8 @@ class Parser(object):
             lvs = [self.lvalue()]
             while self.peek() == ("op", ","):
                 self.next()
+                if self.at_end():
+                    raise Undefined("syntax_trailing_comma")
                 lvs.append(self.lvalue())
             self.done()
             return ("read", lvs)
@@ -526,6 +535,8 @@ class Parser(object):
                 decl.append(lv)
                 if self.peek() == ("op", ","):
                     self.next()
+                    if self.at_end():
+                        raise Undefined("syntax_trailing_comma")
                     continue
                 break
             self.done()
@@ -637,6 +648,9 @@ class Machine(object):
     def _static_structure(self):
         """textual FOR/NEXT and WHILE/WEND pairing; each statement knows its enclosing loops"""
         stack = []
+        # a loop keyword that is not the first word of a statement: the pairing of loops is then not defined
+        self.misplaced_loop_word = any(t[0] == "id" and t[1] in ("FOR", "NEXT", "WHILE", "WEND") for s in self.flat
+                                       if s.kind != "REM" for t in s.toks[1:])
         for p, s in enumerate(self.flat):
             k = s.kind
             if k in ("NEXT", "WEND"):
@@ -1155,6 +1169,8 @@ class Machine(object):
                     else:
                         self.count("while_zero_trip")
                     if s.match is None:
+                        if self.misplaced_loop_word:
+                            raise Undefined("loop_keyword_inside_statement")
                         raise BasicError("WHILE without WEND", ln)
                     pc = s.match + 1
             elif k == "wend":
@@ -1655,6 +1671,11 @@ class Gen(object):
             a = self.fit_abs(self.real_expr(d - 1), 1e6)
             if a.isint:
                 a = self.clean(a)
+            elif expr_inexact(a.txt):
+                # an inexact value may sit on an integer (5 MOD 3 / 2 ...): move it off before truncating
+                self.avoid("floor_ceil_of_inexact_value_offset")
+                c_ = self.pick(["0.5", "0.25", "0.3", ".7"])
+                a = Nd(self.at(a, P_ADD) + self.sp("+") + c_, P_ADD, a.lo, a.hi + 1)
             f = self.pick(["FLOOR", "CEIL"])
             return Nd(self.kw(f) + "(" + a.txt + ")", P_ATOM, math.floor(a.lo), math.ceil(a.hi), True)
         if c == 13:
@@ -1776,6 +1797,9 @@ class Gen(object):
             return Nd("1" + self.sp("+") + self.kw("LEN") + "(" + s.txt + ")", P_ADD, 1 + s.lmin, 1 + s.lmax, True)
         if c == 11:
             a = self.pos_expr(d - 1)
+            if expr_inexact(a.txt):
+                self.avoid("floor_ceil_of_inexact_value_offset")
+                a = Nd(self.at(a, P_ADD) + self.sp("+") + self.pick(["0.5", "0.25", "0.3"]), P_ADD, a.lo, a.hi + 1)
             return Nd(self.kw("CEIL") + "(" + a.txt + ")", P_ATOM, max(1.0, math.floor(a.lo)), math.ceil(a.hi) + 1, True)
         if c == 12:
             a = self.pos_expr(d - 1)
@@ -1910,8 +1934,8 @@ class Gen(object):
                 p = self.pos_lit()
                 pad = " " * self.r.randint(0, 2)
                 return Nd(self.kw("VAL") + '("' + pad + p.txt + '")', P_ATOM, p.lo, p.hi)
-            a = self.fit_abs(self.real_expr(d - 1), 1e5)
-            dd = self.r.randint(0, 6)
+            a = self.plus_zero(self.fit_abs(self.real_expr(d - 1), 1e5))
+            dd = self.r.randint(0, 6) if not expr_inexact(a.txt) else self.r.randint(4, 8)
             w = self.r.randint(0, 14)
             f = self.pick(["STR_F$", "STR_E$"])
             m = max(abs(a.lo), abs(a.hi)) + 1
@@ -1942,6 +1966,13 @@ class Gen(object):
             return self.name(self.pick(cands)[0])
         self.avoid("subscript_in_range_by_construction")
         return self.clean(self.fit_int(self.int_expr(1), 0, n)).txt
+
+    def plus_zero(self, a):
+        """x + 0 is x for every double except that -0 becomes +0: the sign of a zero never reaches a text"""
+        if a.lo > 0 or a.hi < 0:
+            return a
+        self.avoid("zero_sign_normalised_before_text")
+        return Nd(self.at(a, P_ADD) + self.sp("+") + "0", P_ADD, a.lo, a.hi, a.isint)
 
     # -- string expressions
     def sarg(self, s):
@@ -2021,13 +2052,16 @@ class Gen(object):
             w = self.clean(self.fit_int(self.int_expr(1), 0, 30))
             return Nd(self.kw("PAD") + "(" + s.txt + ", " + w.txt + ")", P_ATOM, typ="s", lmin=s.lmin, lmax=max(s.lmax, 30))
         if c < 13:
-            a = self.fit_abs(self.real_expr(d - 1), 1e6)
+            a = self.plus_zero(self.fit_abs(self.real_expr(d - 1), 1e6))
             f = self.pick(["STR_F$", "STR_E$"])
             w = self.r.randint(0, 16)
             dd = self.r.randint(0, 8)
+            if dd < 4 and expr_inexact(a.txt):
+                self.avoid("format_decimals_raised_for_inexact_value")
+                dd = self.r.randint(4, 9)
             return Nd(self.kw(f) + "(" + a.txt + ", %d, %d)" % (w, dd), P_ATOM, typ="s", lmin=1, lmax=max(w, 30))
         if c == 13:
-            a = self.clean(self.fit_int(self.int_expr(d - 1), -99999999, 99999999))
+            a = self.plus_zero(self.clean(self.fit_int(self.int_expr(d - 1), -99999999, 99999999)))
             self.avoid("str_layout_checked_through_val_or_trim")
             f = self.pick(["TRIM", "LTRIM"])
             return Nd(self.kw(f) + "(" + self.kw("STR$") + "(" + a.txt + "))", P_ATOM, typ="s", lmin=1, lmax=10)
@@ -2085,6 +2119,8 @@ class Gen(object):
 
     def st_punch(self, d):
         n = self.pick([1, 1, 2, 2, 3, 4])
+        if self.punches + n * self.mult > 400:
+            return self.st_assign(d)
         items = []
         for _ in range(n):
             c = self.r.randint(0, 9)
